@@ -30,7 +30,7 @@ def raw(lvs, names):
 
 
 def raw_json(lvs, names):
-    return [[sorted(names[e] for e in b) for b in spec.buckets_of(lv)] for lv in lvs]
+    return [[sorted((names[e] for e in b), key=lambda x: (str(type(x)), str(x))) for b in spec.buckets_of(lv)] for lv in lvs]
 
 
 def from_json(rj):
